@@ -651,6 +651,15 @@ func checkProgram(in replayInput) {
 	}{{"dedup", ded.BC}, {"dedup+gob", dec}, {"gob", decOrig}}
 	for ai, a := range assignments(in) {
 		ro := lib.RunBytecode(orig, lib.RunOpts{Inputs: a.vals})
+		if ro.TimedOut {
+			res.Dist("timeout")
+			return
+		}
+		if outcomeSize(ro) > 4<<20 { // a generated program that grows a giant value: four more canonical copies cost GBs
+			res.Skipped++
+			res.Dist("huge-outcome-skipped")
+			return
+		}
 		if ai == 0 {
 			if r2 := lib.RunBytecode(orig, lib.RunOpts{Inputs: a.vals}); r2.String() != ro.String() {
 				res.Skipped++
@@ -687,6 +696,14 @@ func checkProgram(in replayInput) {
 			res.Sample(map[string]interface{}{"stream": "run3", "source": clip(in.Source, 400), "removed": removed, "outcome": clip(ro.String(), 160)}, 3)
 		}
 	}
+}
+
+func outcomeSize(o lib.RunOutcome) int {
+	n := len(o.Err) + len(o.Panic)
+	for _, v := range o.Globals {
+		n += len(v)
+	}
+	return n
 }
 
 func bucket(n int) string {
